@@ -70,6 +70,11 @@ func (p *Program) memoTable(g *ssa.Global) *memoInfo {
 					if !pureFunctionOf(val, key, fn, 0, map[ssa.Value]bool{}) {
 						return mi
 					}
+					// whether an entry exists must say nothing beyond the key: a store that happens only under a condition
+					// on something else (the formats of this call, a flag) turns "present" into remembered state
+					if !storeConditionsPure(ci, g, key) {
+						return mi
+					}
 					if mi.valueType != nil && !types.Identical(mi.valueType, val.Type()) {
 						return mi
 					}
@@ -87,6 +92,48 @@ func (p *Program) memoTable(g *ssa.Global) *memoInfo {
 	}
 	mi.ok = stores > 0
 	return mi
+}
+
+// storeConditionsPure: every branch condition in a block that dominates the store is a function of the key (a
+// lookup of the key in the same table included).
+func storeConditionsPure(st ssa.CallInstruction, g *ssa.Global, key ssa.Value) bool {
+	fn := st.Parent()
+	sb := st.Block()
+	for _, b := range fn.Blocks {
+		if b == sb || !b.Dominates(sb) || len(b.Instrs) == 0 {
+			continue
+		}
+		ifi, ok := b.Instrs[len(b.Instrs)-1].(*ssa.If)
+		if !ok {
+			continue
+		}
+		if !pureOrLookup(ifi.Cond, g, key, fn, 0) {
+			return false
+		}
+	}
+	return true
+}
+
+func pureOrLookup(v ssa.Value, g *ssa.Global, key ssa.Value, fn *ssa.Function, depth int) bool {
+	if depth > 8 {
+		return false
+	}
+	switch x := v.(type) {
+	case *ssa.Extract:
+		if call, ok := x.Tuple.(*ssa.Call); ok {
+			if f := call.Call.StaticCallee(); f != nil && strings.HasPrefix(calleeName(f), "(*sync.Map).Load") && len(call.Call.Args) >= 2 && call.Call.Args[0] == ssa.Value(g) {
+				return pureFunctionOf(stripIface(call.Call.Args[1]), key, fn, 0, map[ssa.Value]bool{})
+			}
+		}
+		if ta, ok := x.Tuple.(*ssa.TypeAssert); ok {
+			return pureOrLookup(ta.X, g, key, fn, depth+1)
+		}
+	case *ssa.UnOp:
+		return pureOrLookup(x.X, g, key, fn, depth+1)
+	case *ssa.BinOp:
+		return pureOrLookup(x.X, g, key, fn, depth+1) && pureOrLookup(x.Y, g, key, fn, depth+1)
+	}
+	return pureFunctionOf(v, key, fn, 0, map[ssa.Value]bool{})
 }
 
 func stripIface(v ssa.Value) ssa.Value {
@@ -246,7 +293,12 @@ func (p *Program) memoValueReadOnly(fn *ssa.Function, val ssa.Value) bool {
 				if v != val && !readOnlyUses(r, 0) {
 					return false
 				}
-			case *ssa.Index, *ssa.Lookup, *ssa.Slice:
+			case *ssa.FieldAddr:
+				// the fields of a record built before it is published (checked as pure); only read after
+				if v != val && !readOnlyUses(r, 0) {
+					return false
+				}
+			case *ssa.Index, *ssa.Lookup, *ssa.Slice, *ssa.Field:
 			case ssa.CallInstruction:
 				if b, ok := r.Common().Value.(*ssa.Builtin); ok && (b.Name() == "len" || b.Name() == "cap") {
 					continue
